@@ -104,7 +104,7 @@ class DC:
         else:
             pos = self.returned_position((l0, l1, l2))
         self.returned.append((rk.rkid, sd, pos, self.authorised))
-        env = gkdi.server_envelope(rk, sd, pos[0], pos[1], pos[2], authorised=self.authorised, domain=self.domain, forest=self.forest, with_l2_at_31=self.l2_at_31)
+        env = gkdi.server_envelope(rk, sd, pos[0], pos[1], pos[2], chain=gkdi.chain_cached(rk.hash_name, rk.key, rk.rkid, sd, pos[0]), authorised=self.authorised, domain=self.domain, forest=self.forest, with_l2_at_31=self.l2_at_31)
         if self.envelope_override:
             env = self.envelope_override(env)
         return gkdi.pack_envelope(env), 0
